@@ -139,6 +139,7 @@ pub(crate) fn validate(input: &DataType) -> Result<()> {
 
                 for f in &v.fields {
                     bark_at_member_attr(&f.attrs.child_attrs, "child", |_| f.member.span(), &mut errors);
+                    validate_parent_attrs(v.named_fields, &f.attrs.parent_attrs, &data_type_attrs_by_kind, &mut errors);
                     validate_parent_member_type(f, &data_type_attrs_by_kind, &mut errors);
                     validate_dedicated_member_attrs(&f.attrs.attrs, |x| x.attr.container_ty.as_ref(), None, f.member.span(), &type_paths, &mut errors);
                     validate_dedicated_member_attrs(&f.attrs.ghost_attrs, |x| x.attr.container_ty.as_ref(), None, f.member.span(), &type_paths, &mut errors);
